@@ -397,6 +397,11 @@ func (its *PushPullHandler) evaluatePushPullCase() (pushPullCase, errors.OrdaErr
 		if its.datatypeDoc == nil {
 			return caseMatchNothing, nil
 		}
+		if its.datatypeDoc.CollectionNum != its.collectionDoc.Num {
+			// the DUID belongs to a datatype of another collection: never serve it to this client
+			its.datatypeDoc = nil
+			return caseError, errors.PushPullAbortionOfClient.New(its.ctx.L(), "no such datatype in the collection")
+		}
 		return caseUsedDUID, nil
 	}
 	if its.datatypeDoc.Type == its.gotPushPullPack.Type.String() {
